@@ -120,29 +120,29 @@ theorem memo_bounded {K V : Type} (keq : K → K → Bool) (f : K → V) (cap : 
     and equal instants in different zones included -/
 theorem canonical_memo_transparent {V : Type} (g : List Canon → V) (cap : Nat) (hist : List (List PyKey))
     (k : List PyKey) :
-    (call keyEq (fun key => g (key.map canon)) cap (run keyEq (fun key => g (key.map canon)) cap [] hist) k).1
+    (call lruKeyEq (fun key => g (key.map canon)) cap (run lruKeyEq (fun key => g (key.map canon)) cap [] hist) k).1
       = g (k.map canon) :=
-  memo_transparent keyEq _ cap (fun _ _ h => by simp only [map_canon_of_keyEq h]) hist k
+  memo_transparent lruKeyEq _ cap (fun _ _ h => by simp only [map_canon_of_lruKeyEq h]) hist k
 
 /-- `get_lexer(tag_start, tag_end, stmt_start, stmt_end, comment_start, comment_end)`: `compile_liquid_rules` reads
     the *text* of the six delimiters (`re.escape`), nothing else -/
 theorem get_lexer_memo_transparent {V : Type} (compileRules : List Canon → V) (hist : List (List PyKey))
     (delims : List PyKey) :
-    (call keyEq (fun key => compileRules (key.map canon)) 128
-        (run keyEq (fun key => compileRules (key.map canon)) 128 [] hist) delims).1
+    (call lruKeyEq (fun key => compileRules (key.map canon)) 128
+        (run lruKeyEq (fun key => compileRules (key.map canon)) 128 [] hist) delims).1
       = compileRules (delims.map canon) := canonical_memo_transparent compileRules 128 hist delims
 
 /-- `get_parser(env)`: `Environment` defines `__hash__` but not `__eq__`, so the key is the object's identity and
     `Parser(env)` is a function of that object -/
 theorem get_parser_memo_transparent {V : Type} (mk : List Canon → V) (hist : List (List PyKey)) (env : Nat) :
-    (call keyEq (fun key => mk (key.map canon)) 128 (run keyEq (fun key => mk (key.map canon)) 128 [] hist)
+    (call lruKeyEq (fun key => mk (key.map canon)) 128 (run lruKeyEq (fun key => mk (key.map canon)) 128 [] hist)
         [.obj env]).1 = mk [.obj env] := canonical_memo_transparent mk 128 hist [.obj env]
 
 /-- `get_implicit_environment(**kwargs)`: flags are read for truthiness (a function of the numeric value), delimiter
     strings for their text, `tolerance` / `undefined` / `loader` by identity, `globals` is always `None` -/
 theorem get_implicit_environment_memo_transparent {V : Type} (mk : List Canon → V) (hist : List (List PyKey))
     (kwargs : List PyKey) :
-    (call keyEq (fun key => mk (key.map canon)) 10 (run keyEq (fun key => mk (key.map canon)) 10 [] hist)
+    (call lruKeyEq (fun key => mk (key.map canon)) 10 (run lruKeyEq (fun key => mk (key.map canon)) 10 [] hist)
         kwargs).1 = mk (kwargs.map canon) := canonical_memo_transparent mk 10 hist kwargs
 
 /-! ## History independence of a render -/
@@ -166,21 +166,21 @@ theorem render_history_independent {Lx Ps P O : Type} (compileRules : List Canon
     | nil => intro p h1 h2; exact ⟨h1, h2⟩
     | cons q qs ih =>
       intro p h1 h2
-      exact ih _ (call_sound (keq := keyEq) (cap := 128) q.delims h1)
-        (call_sound (keq := keyEq) (cap := 128) [.obj q.env] h2)
+      exact ih _ (call_sound (keq := lruKeyEq) (cap := 128) q.delims h1)
+        (call_sound (keq := lruKeyEq) (cap := 128) [.obj q.env] h2)
   obtain ⟨hl, hp⟩ := key hist ⟨[], []⟩ (by intro p hp; cases hp) (by intro p hp; cases hp)
   have e1 : ∀ (m : List (List PyKey × Lx)), Sound (fun k => compileRules (k.map canon)) m →
-      (call keyEq (fun k => compileRules (k.map canon)) 128 m r.delims).1 = compileRules (r.delims.map canon) := by
+      (call lruKeyEq (fun k => compileRules (k.map canon)) 128 m r.delims).1 = compileRules (r.delims.map canon) := by
     intro m hs
-    rcases call_result (keq := keyEq) (cap := 128) r.delims hs with h | ⟨k', hk, h⟩
+    rcases call_result (keq := lruKeyEq) (cap := 128) r.delims hs with h | ⟨k', hk, h⟩
     · exact h
-    · rw [h]; simp only [map_canon_of_keyEq hk]
+    · rw [h]; simp only [map_canon_of_lruKeyEq hk]
   have e2 : ∀ (m : List (List PyKey × Ps)), Sound (fun k => mkParser (k.map canon)) m →
-      (call keyEq (fun k => mkParser (k.map canon)) 128 m [.obj r.env]).1 = mkParser ([PyKey.obj r.env].map canon) := by
+      (call lruKeyEq (fun k => mkParser (k.map canon)) 128 m [.obj r.env]).1 = mkParser ([PyKey.obj r.env].map canon) := by
     intro m hs
-    rcases call_result (keq := keyEq) (cap := 128) [.obj r.env] hs with h | ⟨k', hk, h⟩
+    rcases call_result (keq := lruKeyEq) (cap := 128) [.obj r.env] hs with h | ⟨k', hk, h⟩
     · exact h
-    · rw [h]; simp only [map_canon_of_keyEq hk]
+    · rw [h]; simp only [map_canon_of_lruKeyEq hk]
   simp only [renderP]
   rw [e1 _ hl, e2 _ hp, e1 [] (by intro p hp; cases hp), e2 [] (by intro p hp; cases hp)]
 
@@ -194,12 +194,12 @@ def noonPlus5 : List PyKey := [.datetime 720 300, .str "%H:%M %z"]
     zone of its argument, which `==` does not see; the history `[noon UTC]` made `date` of the equal instant at
     UTC+5 return the UTC rendering.  With the memo removed the inventory above has no entry for `date`. -/
 theorem removed_date_memo_counterexample :
-    keyEq noonPlus5 noonUtc = true ∧
-    (call keyEq dateF 10 (run keyEq dateF 10 [] [noonUtc]) noonPlus5).1 ≠ dateF noonPlus5 := by decide
+    lruKeyEq noonPlus5 noonUtc = true ∧
+    (call lruKeyEq dateF 10 (run lruKeyEq dateF 10 [] [noonUtc]) noonPlus5).1 ≠ dateF noonPlus5 := by decide
 
 /-- … and a `Markup` format string poisoned the entry of an equal plain string (the result stayed marked safe) -/
 theorem removed_date_memo_markup_counterexample :
-    (call keyEq dateF 10 (run keyEq dateF 10 [] [[.datetime 720 0, .markup "<b>%Y</b>"]])
+    (call lruKeyEq dateF 10 (run lruKeyEq dateF 10 [] [[.datetime 720 0, .markup "<b>%Y</b>"]])
         [.datetime 720 0, .str "<b>%Y</b>"]).1 ≠ dateF [.datetime 720 0, .str "<b>%Y</b>"] := by decide
 
 /-! ## Non-vacuity -/
@@ -210,8 +210,11 @@ example : keyEq [.float 1] [.int 1] = true := by decide
 -- … and separates different ones
 example : keyEq [.str "{%"] [.str "<%"] = false := by decide
 example : keyEq [.obj 1] [.obj 2] = false := by decide
+-- `functools._make_key`: a single `int`/`str` argument is keyed bare, so it does not meet `True` / `1.0` / `Markup`
+example : lruKeyEq [.int 1] [.bool true] = false ∧ lruKeyEq [.float 1] [.bool true] = true
+    ∧ lruKeyEq [.str "x"] [.markup "x"] = false ∧ lruKeyEq [.int 1, .str "x"] [.bool true, .markup "x"] = true := by decide
 -- a history with hits, misses and an eviction (capacity 2)
-example : (run keyEq (fun k => k.length) 2 [] [[.int 1], [.int 2, .int 2], [.float 1], [.int 3, .int 3, .int 3]]).map (·.2)
+example : (run lruKeyEq (fun k => k.length) 2 [] [[.int 1], [.int 2, .int 2], [.float 1], [.int 3, .int 3, .int 3]]).map (·.2)
     = [1, 3] := by decide
 
 end LiquidVerif.C17
